@@ -2,6 +2,7 @@
 // output sequentially (the reference).  Used by the controlled-scheduler explorer (c06.cpp) and by the free-running TSan pass (c06_free.cpp).
 #pragma once
 #include "vf.hpp"
+#include "sched.hpp"
 #include "ref.hpp"
 #include "exactkey.hpp"
 #include "gates.hpp"
@@ -10,6 +11,7 @@
 #include <tgsw_functions.h>
 #include <tlwe_functions.h>
 #include <lwe-functions.h>
+#include <thread>
 
 namespace c06 {
 static const int N = 1024;
@@ -18,6 +20,7 @@ struct Scenario {
     std::string name; int nthreads;
     std::function<void()> prepare;                       // build shared inputs (called once, on the main thread)
     std::function<std::string(int)> work;                // the work of thread i; returns its output bytes
+    std::function<void()> before_run;                    // optional: called after the sequential references, before the threads start
 };
 
 struct Shared {
@@ -25,6 +28,7 @@ struct Shared {
     gates::CK *ck = nullptr; TFheGateBootstrappingParameterSet *ps = nullptr;
 };
 inline Shared &SH() { static Shared s; return s; }
+inline volatile int *FLAGS() { static volatile int f[4]; return f; }
 
 inline void prep_polys(int T, int n) { Shared &s = SH(); uint64_t x = 17; for (int t = 0; t < T; t++) { IntPolynomial *a = new_IntPolynomial(n); TorusPolynomial *b = new_TorusPolynomial(n); for (int i = 0; i < n; i++) { a->coefs[i] = (int32_t)(vf::splitmix(x) % 1024) - 512; b->coefsT[i] = (Torus32)vf::splitmix(x); } s.ia.push_back(a); s.tb.push_back(b); } }
 inline void prep_key(int n, int T) { Shared &s = SH(); s.S = ek::make(n, 1, 2, 10, 8, 2, 81); s.ps = new TFheGateBootstrappingParameterSet(8, 2, s.S->lp, s.S->gp); s.ck = new gates::CK(s.ps, s.S->bk, s.S->bkFFT); uint64_t x = 23;
@@ -33,7 +37,7 @@ inline void prep_key(int n, int T) { Shared &s = SH(); s.S = ek::make(n, 1, 2, 1
 inline std::string poly_bytes(const TorusPolynomial *p) { return std::string((const char *)p->coefsT, p->N * 4); }
 inline std::string lwe_bytes(const LweSample *c, int n) { std::string s((const char *)c->a, n * 4); s.append((const char *)&c->b, 4); return s; }
 
-inline std::vector<Scenario> scenarios(int T, int tiny_n) {
+inline std::vector<Scenario> scenarios(int T, int tiny_n, const std::vector<int> &churn = {}) {
     std::vector<Scenario> v;
     v.push_back({"H1-fft-products", T, [=] { prep_polys(T, N); }, [](int t) { TorusPolynomial *r = new_TorusPolynomial(N); torusPolynomialMultFFT(r, SH().ia[t], SH().tb[t]); std::string o = poly_bytes(r); delete_TorusPolynomial(r); return o; }});
     v.push_back({"H2-extern-products-shared-key", T, [=] { prep_key(tiny_n, T); }, [](int t) { Shared &s = SH(); TLweSample *a = new_TLweSample(s.S->tp); tLweCopy(a, s.acc[t], s.S->tp); tGswFFTExternMulToTLwe(a, &s.S->bkFFT->bkFFT[0], s.S->gp); std::string o = poly_bytes(&a->a[0]) + poly_bytes(&a->a[1]); delete_TLweSample(a); return o; }});
@@ -44,6 +48,16 @@ inline std::vector<Scenario> scenarios(int T, int tiny_n) {
         uint32_t sd[2] = {5, 6}; tfhe_random_generator_setSeed(sd, 2); TLweParams *tp = new_TLweParams(N, 1, 1e-9, 0.25); TGswParams *gp = new_TGswParams(1, 8, tp); TGswKey *k = new_TGswKey(gp); tGswKeyGen(k); TGswSample *g = new_TGswSample(gp); tGswSymEncryptInt(g, 1, 1e-9, k);
         std::string o = poly_bytes(g->all_sample[0].b) + poly_bytes(g->all_sample[1].b); delete_TGswSample(g); delete_TGswKey(k); delete_TGswParams(gp); delete_TLweParams(tp); return o; }});
     v.push_back({"K-karatsuba-products", T, [=] { prep_polys(T, 16); }, [](int t) { TorusPolynomial *r = new_TorusPolynomial(16); torusPolynomialMultKaratsuba(r, SH().ia[t], SH().tb[t]); for (int i = 0; i < 16; i++) r->coefsT[i] ^= 0; torusPolynomialAddMulRKaratsuba(r, SH().ia[t], SH().tb[t]); std::string o = poly_bytes(r); delete_TorusPolynomial(r); return o; }});
+    // thread churn: between the first FFT use of T0 and the first FFT use of T1, F short-lived threads are created, use the FFT once and exit
+    // ("threads created and destroyed repeatedly", thread counts up to 64): per-thread state must not be recycled between live threads
+    for (int F : churn) v.push_back({vf::fmt("H5-thread-churn-%d", F), 2, [=] { prep_polys(4, N); FLAGS()[0] = FLAGS()[1] = 1; /* events already signalled while the references are computed sequentially */ }, [F](int t) {
+        TorusPolynomial *r = new_TorusPolynomial(N); std::string o;
+        if (t == 0) { torusPolynomialMultFFT(r, SH().ia[0], SH().tb[0]); o = poly_bytes(r); sched::set_flag(&FLAGS()[0]);      // T0 has its per-thread FFT state
+                      torusPolynomialMultFFT(r, SH().ia[1], SH().tb[1]); o += poly_bytes(r); sched::wait_flag(&FLAGS()[1]); }    // ... and stays alive until the churn is over
+        else { sched::wait_flag(&FLAGS()[0]);
+               for (int f = 0; f < F; f++) { std::thread th([] { TorusPolynomial *q = new_TorusPolynomial(N); torusPolynomialMultFFT(q, SH().ia[3], SH().tb[3]); delete_TorusPolynomial(q); }); th.join(); }
+               sched::set_flag(&FLAGS()[1]); torusPolynomialMultFFT(r, SH().ia[2], SH().tb[2]); o = poly_bytes(r); }
+        delete_TorusPolynomial(r); return o; }, [] { FLAGS()[0] = FLAGS()[1] = 0; }});
     return v;
 }
 } // namespace c06
